@@ -302,3 +302,41 @@ Proof.
   set (ru := round_half_even_div u D) in *. set (rv := round_half_even_div v D) in *.
   assert (D * Z.abs (ru - rv) < 2 * D) by lia. nia.
 Qed.
+
+(* ------------------------------------------------------------------ *)
+(* E. channel bookkeeping: which column is filtered                    *)
+(* ------------------------------------------------------------------ *)
+Lemma where_eq_range sh shanks : forall i c, In c (where_eq sh i shanks) ->
+  i <= c < i + Z.of_nat (length shanks).
+Proof.
+  induction shanks as [|s t IH]; intros i c Hc; [contradiction|].
+  cbn [where_eq] in Hc. cbn [length]. destruct (s =? sh).
+  - destruct Hc as [<-|Hc]; [lia|]. apply IH in Hc. lia.
+  - apply IH in Hc. lia.
+Qed.
+
+Lemma sync_never_filtered m shanks sh :
+  sns2 m = 1 -> nsaved m = sns0 m + 1 -> Z.of_nat (length shanks) = sns0 m ->
+  let chns := shank_chns shanks (nsaved m) (sns2 m) sh in
+  chns = where_eq sh 0 shanks ++ [nsaved m - 1] /\
+  lf_col_sources m chns =
+    map (fun c => (true, c)) (where_eq sh 0 shanks) ++ [(false, nsaved m - 1)] /\
+  chunk2save_width m = nsaved m /\
+  Forall (fun c => 0 <= c < chunk2save_width m) chns.
+Proof.
+  intros Hs Hn Hl. cbv zeta. unfold shank_chns. rewrite Hs.
+  assert (Hz : zrange2 (nsaved m - 1) (nsaved m) = [nsaved m - 1]).
+  { rewrite zrange2_cons by lia. rewrite zrange2_nil by lia. reflexivity. }
+  rewrite Hz. split; [reflexivity|].
+  assert (Hw : chunk2save_width m = nsaved m) by (unfold chunk2save_width, napch, idxsyncch; lia).
+  split; [|split; [exact Hw|]].
+  - unfold lf_col_sources. rewrite map_app. f_equal.
+    + apply map_ext_in. intros c Hc. apply where_eq_range in Hc.
+      unfold col_source, napch. destruct (c <? sns0 m) eqn:E; [reflexivity|lia].
+    + cbn [map]. unfold col_source, napch, idxsyncch.
+      destruct (nsaved m - 1 <? sns0 m) eqn:E; [lia|].
+      replace (sns0 m + (nsaved m - 1 - sns0 m)) with (nsaved m - 1) by lia. reflexivity.
+  - rewrite Hw. apply Forall_app. split.
+    + apply Forall_forall. intros c Hc. apply where_eq_range in Hc. lia.
+    + constructor; [lia|constructor].
+Qed.
